@@ -76,6 +76,14 @@ pub fn generate(run_seed: u64, corpus: &Corpus, sw: &Swarm, i: u64, exhaustive: 
         let (kind, cl) = W5_ENVS[(i % n_env) as usize];
         let client = client_for(cl);
         // last block: ordered pairs of edge-value escapes in a double-quoted scalar, iterate + two loaders
+        // very last block: the (context, follower, suffix) triples, plain iteration and one loader
+        let ctxn = gen::count_context_cases() * 2;
+        if i >= exhaustive - ctxn {
+            let j = i - (exhaustive - ctxn);
+            let (input, client) = if j % 2 == 0 { (InputKind::Str, Client::Iterate) } else { (InputKind::Buffered, Client::Loader(((j / 2) % 4) as u8, 0)) };
+            return Case { prop: "C01".into(), gen: "X-context-follower".into(), text: gen::nth_context_case(j / 2), input, client, ..Case::default() };
+        }
+        let exhaustive = exhaustive - ctxn;
         let esc = gen::escape_pair_count() * 3;
         if i >= exhaustive - esc {
             let j = i - (exhaustive - esc);
